@@ -7,6 +7,7 @@ import (
 	"path/filepath"
 	"testing"
 
+	"verifharness/gen"
 	"verifharness/pt"
 )
 
@@ -85,4 +86,64 @@ func TestC06WriteCorpus(t *testing.T) {
 		}
 		fmt.Printf("%-40s %s   %s\n", name, verdict, c.Text)
 	}
+}
+
+// TestC06WriteCorpusTwoPass (manual: C06_WRITE_CORPUS2=<dir>) writes the regression cases for a stateful
+// limiter in front of a two-pass command (the stop flag of `head <bool-expr>` must be reset by Rewind).
+func TestC06WriteCorpusTwoPass(t *testing.T) {
+	dir := os.Getenv("C06_WRITE_CORPUS2")
+	if dir == "" {
+		t.Skip("manual")
+	}
+	// 20 rows, id = x = 1..20 along the stream, s present on every second row only (the demonstration's shape)
+	tb := &Table{Cols: []Col{{tsColName, kTime}, {"id", kUniq}, {"n", kNum}, {"g", kStr}, {"s", kText}}}
+	for i := 0; i < 20; i++ {
+		s := vNull()
+		if i%2 == 0 {
+			s = vStr(fmt.Sprintf("u=alice;c=%d", i))
+		}
+		tb.Rows = append(tb.Rows, []V{vNum(float64(baseTs + 100000 - uint64(i)*1000)), vNum(float64(i + 1)), vNum(float64(i % 4)),
+			vStr(grpPool[i%3]), s})
+	}
+	ones := make([]int, 20)
+	for i := range ones {
+		ones[i] = 1
+	}
+	parts := []Partition{{Topo: "single", Cuts: [][]int{{20}}}, {Topo: "single", Cuts: [][]int{ones}}, {Topo: "single", Cuts: [][]int{{4, 4, 0, 4, 4, 4}}, EOFNil: true}}
+	lt := func(f string, v float64) *Expr { return eOp("cmp", "<", eField(f), eNum(v)) }
+	all := []string{tsColName, "id", "n", "g", "s"}
+	l1 := map[string][]*Cmd{
+		"head-expr-then-fillnull-all":           {{Op: "head", Expr: lt("id", 6), HasN: true, N: 50}, {Op: "fillnull", Str: "NA", All: all}},
+		"head-expr-keeplast-then-bin-no-span":   {{Op: "head", Expr: lt("id", 6), KeepLast: "true"}, {Op: "bin", Field: "id", To: "b1", HasN: true, N: 3}},
+		"head-expr-limit-reached-then-fillnull": {{Op: "head", Expr: lt("id", 15), HasN: true, N: 4, Null: "true"}, {Op: "eval", Field: "e1", Expr: eOp("arith", "+", eField("n"), eNum(1))}, {Op: "fillnull", Str: "zz", All: append(append([]string(nil), all...), "e1")}},
+		"dedup-then-head-expr-then-fillnull":    {{Op: "dedup", Fields: []string{"g", "n"}}, {Op: "head", Expr: eOp("cmp", "!=", eField("n"), eNum(3))}, {Op: "fillnull", Str: "none", All: all}},
+	}
+	_ = os.MkdirAll(dir, 0o755)
+	write := func(name, test string, c interface{}, verdict string, text string) {
+		cj, _ := json.Marshal(c)
+		env := map[string]interface{}{"property": "C06", "test": test, "msg": "regression case: " + name, "case": json.RawMessage(cj)}
+		b, _ := json.MarshalIndent(env, "", " ")
+		if err := os.WriteFile(filepath.Join(dir, name+".json"), b, 0o644); err != nil {
+			t.Fatal(err)
+		}
+		fmt.Printf("%-45s %s   %s\n", name, verdict, text)
+	}
+	for name, chain := range l1 {
+		c := &l1Case{Table: tb, Chain: chain, Text: chainText(chain), Ordered: true, Parts: parts}
+		verdict := "held"
+		if err := checkL1(c, &pt.Obs{}); err != nil {
+			verdict = "VIOLATED: " + firstLine(err.Error())
+		}
+		write(name, "TestC06L1", c, verdict, c.Text)
+	}
+	chain := l1["head-expr-then-fillnull-all"]
+	c2 := &l2Case{Table: tb, Chain: chain, Text: chainText(chain), Ordered: true,
+		Layouts: []gen.Layout{gen.ReferenceLayout(20),
+			{Batches: []int{4, 4, 4, 4, 4}, Flush: []bool{true, true, true, true, true}, Rotate: []bool{false, false, false, false, false}, GoMaxProcs: 2}},
+		Reverse: []bool{false, false}}
+	verdict := "held"
+	if err := checkL2(c2, &pt.Obs{}); err != nil {
+		verdict = "VIOLATED: " + firstLine(err.Error())
+	}
+	write("head-expr-then-fillnull-all-end-to-end", "TestC06L2", c2, verdict, c2.Text)
 }
